@@ -3,22 +3,61 @@ import Driver.Util
 namespace Driver.C09
 open MaddyVerif.StatusKeys Driver
 
-def parseRcpt (s : String) : Option Rcpt :=
-  match s.splitOn "." with
-  | [id, dom, form, acc] => do
-    let id ← id.toNat?
-    let dom ← dom.toNat?
-    let (na, cv) ← match form with
-      | "a" => some (false, false) | "u" => some (false, false)
-      | "i" => some (true, true) | "l" => some (true, false) | _ => none
-    pure ⟨id, dom, na, cv, acc == "1"⟩
+/-- What the driver keeps per recipient next to the model's `Rcpt`: the mailbox number (several
+recipients may be spellings of one mailbox), the domain number and whether the domain is the
+internationalised one. -/
+structure RcptInfo where
+  id : Nat
+  mbox : Nat
+  dnum : Nat
+  idn : Bool
+
+/-- spelling forms: (non-ASCII, convertible, spelling class of the domain = connection key, IDN domain)
+a `u1@d0.example`  u `U1@D0.EXAMPLE`  i `u1@пример0.example`  x its A-label spelling  I `U1@пример0.example`
+U `U1@d0.example`  X `U1@XN--….EXAMPLE`  l `ю1@d0.example`  c/d `é1@d0.example` composed/decomposed  C `É1@d0.example` -/
+def formInfo : String → Option (Bool × Bool × Nat × Bool)
+  | "a" => some (false, false, 0, false)
+  | "u" => some (false, false, 1, false)
+  | "U" => some (false, false, 0, false)
+  | "i" => some (true, true, 2, true)
+  | "I" => some (true, true, 2, true)
+  | "x" => some (false, false, 3, true)
+  | "X" => some (false, false, 4, true)
+  | "l" => some (true, false, 0, false)
+  | "c" => some (true, false, 0, false)
+  | "d" => some (true, false, 0, false)
+  | "C" => some (true, false, 0, false)
   | _ => none
 
-def parseTx (s : String) : Option Tx :=
+def parseRcpt (s : String) : Option (Rcpt × RcptInfo) := do
+  let (id, dom, form, act, mbox) ← match s.splitOn "." with
+    | [id, dom, form, act] => some (id, dom, form, act, id)
+    | [id, dom, form, act, mbox] => some (id, dom, form, act, mbox)
+    | _ => none
+  let id ← id.toNat?
+  let dom ← dom.toNat?
+  let mbox ← mbox.toNat?
+  let (na, cv, cls, idn) ← formInfo form
+  let (acc, fault) ← match act with
+    | "1" => some (true, false) | "0" => some (false, false) | "t" => some (false, false)
+    | "4" => some (false, true) | "c" => some (false, true) | "r" => some (false, true) | "s" => some (false, true)
+    | _ => none
+  pure (⟨id, dom * 8 + cls, na, cv, acc, fault⟩, ⟨id, mbox, dom, idn⟩)
+
+/-- tx = `<rcpt>,<rcpt>,...:<df>`; df = `0` no DATA failure, `1` DATA fails everywhere,
+`d<digits>` DATA fails for the listed domain numbers. -/
+def parseTx (s : String) : Option (Tx × List RcptInfo) :=
   match s.splitOn ":" with
   | [rs, df] => do
     let rcpts ← (rs.splitOn ",").mapM parseRcpt
-    pure { rcpts := rcpts, dataFail := fun _ => df == "1" }
+    let fail : Nat → Bool ←
+      if df == "0" then some (fun _ => false)
+      else if df == "1" then some (fun _ => true)
+      else if df.startsWith "d" then
+        let ds : List Nat := (df.toList.drop 1).filterMap (fun c => (String.singleton c).toNat?)
+        some (fun ck => ds.contains (ck / 8))
+      else none
+    pure ({ rcpts := rcpts.map (·.1), dataFail := fail }, rcpts.map (·.2))
   | _ => none
 
 def okStr (b : Bool) : String := if b then "o" else "f"
@@ -29,14 +68,22 @@ def insertSorted (x : String) : List String → List String
 
 def sortStr (l : List String) : List String := l.foldr insertSorted []
 
-def showObs (o : TxObs) : String :=
+def showWire (infos : List RcptInfo) (id : Nat) : String :=
+  match infos.find? (fun i => i.id == id) with
+  | some i => s!"{i.mbox}@{i.dnum}" ++ (if i.idn then "i" else "a")
+  | none => s!"?{id}"
+
+def showObs (o : TxObs) (infos : List RcptInfo) : String :=
   "add:" ++ ",".intercalate (o.adds.map (fun p => s!"{p.1}={okStr p.2}")) ++
-  " status:" ++ ",".intercalate (sortStr (o.statuses.map (fun p => s!"{p.1}={okStr p.2}")))
+  " status:" ++ ",".intercalate (sortStr (o.statuses.map (fun p => s!"{p.1}={okStr p.2}"))) ++
+  " srv:" ++ ",".intercalate (sortStr (o.delivered.map (showWire infos)))
 
 def handle : List String → String
   | ["remote", utf8, txs] =>
     match (txs.splitOn ";").mapM parseTx with
-    | some txs => " | ".intercalate ((runHistory (utf8 == "1") [] txs).map showObs)
+    | some txs =>
+      let obs := runHistory (utf8 == "1") [] (txs.map (·.1))
+      " | ".intercalate ((obs.zip (txs.map (·.2))).map (fun p => showObs p.1 p.2))
     | none => "bad-op"
   | ["lmtp", acc, sts, _spec] =>
     -- accepted ids "1,2,3" (or "-"), server statuses "o,f" (or "-")
@@ -59,11 +106,12 @@ def handle : List String → String
       | _ => none)
     -- OriginalRcpts as built by AddRcpt: for each rewritten effective address, last writer wins
     let orig : List (Nat × Nat) := (entries.flatMap (fun e => e.2.map (fun x => (x, e.1)))).reverse
-    let effs : List (Nat × Bool) := entries.flatMap (fun e =>
-      if e.2.isEmpty then [(e.1, true)] else e.2.map (fun x => (x, false)))
-    let sts := effs.map (fun (x, isClient) =>
-      let k := if isClient then x else translate orig x
-      let nm := if isClient || (orig.find? (fun o => o.1 == x)).isSome then s!"c{k}" else s!"e{k}"
+    -- effective recipients in AddRcpt order (an unrewritten client recipient is its own effective
+    -- recipient); ids below 10 are client-supplied addresses, also when they occur as a rewrite result
+    let effs : List Nat := entries.flatMap (fun e => if e.2.isEmpty then [e.1] else e.2)
+    let sts := effs.map (fun x =>
+      let k := translate orig x          -- statusCollector.SetStatus: ONE look-up in OriginalRcpts
+      let nm := if k < 10 then s!"c{k}" else s!"e{k}"
       nm ++ "=" ++ okStr (!failIds.contains x))
     ",".intercalate (sortStr sts)
   | _ => "bad-op"
